@@ -2,7 +2,7 @@
    op "history": [class table; number of slots; operations; observed classes; unobserved prefix length]\n   -> one observation per observed step
    (DESIGN.md section 6, "Correspondence for histories"). *)
 From Coq Require Import String List NArith ZArith Bool Arith.
-From DSD Require Import Base.Str Base.Errors Base.Val Model.ComplexUtils Model.RegStr Model.Heap Model.Registry.
+From DSD Require Import Base.Str Base.Errors Base.Val Model.ComplexUtils Model.RegStr Model.Heap Model.Registry Model.RegSplit.
 Import ListNotations.
 Local Open Scope string_scope.
 
@@ -86,6 +86,14 @@ Definition as_op (v : val) : option op :=
   | _ => None
   end.
 
+Definition as_xop (v : val) : option xop :=
+  match v with
+  | VList [VStr tag; dst; src] =>
+      if op_is' tag "split" then do dst <- as_nat dst; do src <- as_nat src; Some (XSplit dst src)
+      else option_map XBase (as_op v)
+  | _ => option_map XBase (as_op v)
+  end.
+
 (* ---- encoding ---- *)
 Fixpoint index_nat (i : nat) (l : list nat) : option nat :=
   match l with
@@ -128,10 +136,16 @@ Definition of_out (handed : list nat) (o : out) : val :=
   | Value v => VList [VStr (str "value"); of_qval v]
   end.
 
-Definition observe (ct : ctable) (watch : list nat) (st : state) (handed : list nat) (o : out) : val :=
+Definition of_xout (handed : list nat) (o : xout) : val :=
+  match o with
+  | XOut r => of_out handed r
+  | Yielded ids => VList [VStr (str "split"); of_list (hidx handed) ids]
+  end.
+
+Definition observe (ct : ctable) (watch : list nat) (st : state) (handed : list nat) (o : xout) : val :=
   let h := heap st in
   VList [
-    of_out handed o;
+    of_xout handed o;
     of_list (of_opt (hidx handed)) (roots st);
     VList (map (fun c =>
              let cs := cget st c in
@@ -151,19 +165,21 @@ Definition observe (ct : ctable) (watch : list nat) (st : state) (handed : list 
     of_list (fun i => VBool (is_live h i)) handed
   ].
 
-Definition hand_out (handed : list nat) (o : out) : list nat :=
+Definition hand_one (handed : list nat) (i : nat) : list nat := if mem i handed then handed else handed ++ [i].
+Definition hand_out (handed : list nat) (o : xout) : list nat :=
   match o with
-  | Returned i | Created i => if mem i handed then handed else handed ++ [i]
+  | XOut (Returned i) | XOut (Created i) => hand_one handed i
+  | Yielded ids => fold_left hand_one ids handed
   | _ => handed
   end.
 
 (* the first `quiet` steps (a fixed set-up prefix) are executed but not observed *)
 Fixpoint run_history (ct : ctable) (watch : list nat) (quiet : nat) (st : state) (handed : list nat)
-    (ops : list op) : list val :=
+    (ops : list xop) : list val :=
   match ops with
   | [] => []
   | o :: r =>
-      let '(st', out) := step ct st o in
+      let '(st', out) := xstep ct st o in
       let handed' := hand_out handed out in
       match quiet with
       | S q => run_history ct watch q st' handed' r
@@ -174,14 +190,14 @@ Fixpoint run_history (ct : ctable) (watch : list nat) (quiet : nat) (st : state)
 Definition dispatch_registry (op : pstr) (a : val) : option val :=
   if op_is' op "history" then Some (or_bad (
     match a with VList [ct; n; ops; watch; quiet] =>
-      do ct <- as_listof as_cinfo ct; do n <- as_nat n; do ops <- as_listof as_op ops;
+      do ct <- as_listof as_cinfo ct; do n <- as_nat n; do ops <- as_listof as_xop ops;
       do watch <- as_listof as_nat watch; do quiet <- as_nat quiet;
       Some (VList (run_history ct watch quiet (init ct n) [] ops))
     | _ => None end))
   else if op_is' op "histories" then Some (or_bad (
     (* a batch of histories sharing class table, slots, observed classes and quiet prefix length *)
     match a with VList [ct; n; hs; watch; quiet] =>
-      do ct <- as_listof as_cinfo ct; do n <- as_nat n; do hs <- as_listof (as_listof as_op) hs;
+      do ct <- as_listof as_cinfo ct; do n <- as_nat n; do hs <- as_listof (as_listof as_xop) hs;
       do watch <- as_listof as_nat watch; do quiet <- as_nat quiet;
       Some (VList (map (fun ops => VList (run_history ct watch quiet (init ct n) [] ops)) hs))
     | _ => None end))
